@@ -174,7 +174,12 @@ class Program:
                 except SyntaxError as e:
                     raise AnalysisError(f'cannot parse {path}: {e}') from e
                 self.modules[rel] = Mod(rel, path, src, tree)
+        from kfv import localnames
         from kfv import normalize
+        for rel, mod in self.modules.items():
+            nlog0: list[str] = []
+            localnames.restore(mod.tree, rel, nlog0)
+            self.normalized += nlog0
         mutable = normalize.mutable_attrs([m.tree for m in self.modules.values()])
         for rel, mod in self.modules.items():
             _tree, nlog = normalize.run(mod.tree, mutable)
